@@ -37,6 +37,8 @@ func registerCrypto(e *Engine) {
 		"0x07A6b95457d3115346A512b7458D6C43dBB7B39B",
 		"0x507f2C23277B725D3A63b52c958f55A500A3397A",
 		"0x23A7289eC2E06c8AD1fFFBe88718644fF6CB94a0",
+		"0xc9E69270D0CEDA79379eBF46432D19B26bCD4b12",
+		"0x7999aa37a5F49A0dd8Bc557E46285EaB08877119",
 	}
 	recoverT := func(d, r, s, v *Term) *Term {
 		t := App("ecrecover", SInt, d, r, s, v)
